@@ -146,6 +146,11 @@ def judge_linux(case, stats=None):
                 if stats is not None:
                     stats.counters["resolve_path:passthrough-match"] += 1
                 continue
+            if follow and case["links"] and os.path.isabs(host) and passthrough_match(entries, host):
+                # a symbolic link of the sandbox leads to a guest path that is itself a passthrough entry
+                if stats is not None:
+                    stats.counters["resolve_path:passthrough-match-through-link"] += 1
+                continue
             habs = os.path.abspath(host)
             if follow:
                 real = os.path.realpath(habs)
@@ -282,7 +287,8 @@ class C46(Check):
                    "resolve_path with follow_link=False designates the last component itself: only its directory "
                    "part is followed on the host",
                    "a guest path matches a passthrough entry when its normalised form (as given, or taken from the "
-                   "guest root) equals the string entry / is matched by the regexp entry",
+                   "guest root) equals the string entry / is matched by the regexp entry; a path that reaches, through "
+                   "a symbolic link of the sandbox, a guest path matching an entry is a passthrough too",
                    "an exception (AssertionError, RecursionError on link loops) is a refusal, not an escape"]
     level_text = ("randomized testing of the three guest-path mappings against os.path on a real scratch sandbox with "
                   "generated symbolic-link layouts")
